@@ -10,6 +10,7 @@
       ETick     one periodicUpdate (due or not, complete or aborted),
       ECmd      a command was sent (ScheduleImmediateUpdate, forceFull),
       ETpFlip / ETpRefresh  a timeperiod flips / periodicTimeperiodsUpdate (with errors),
+      EResume   ResumeFromIdle (timeperiods, then UpdateDelta(lastUpdate, now)),
     for a backend flavour [c] (lmd_last_cache_update / last_update / last_check only,
     SyncIsExecuting on/off, UpdateOffset, UpdateInterval; [c_fx c = false] is the pinned code).
     Whether a full scan is due follows from the times in the history.
@@ -164,6 +165,21 @@ Theorem C03_convergence_progress :
     (length (missing b' thr' (t_c t') (t_b t')) <= length (miss_of c from t) - 149)%nat.
 Proof. exact progress_missing. Qed.
 
+(** the next window starts where the previous one ended: a complete
+    UpdateDelta(from, until) leaves lastUpdate = until, and the following
+    periodicUpdate / ResumeFromIdle asks the backend for [until - off, ...) - what
+    [C03_window_complete] needs ([wc_ev_ok] takes a periodicUpdate's window from the
+    model's own lastUpdate). The stream compares these bounds with the Filter lines
+    the scripted backend receives. *)
+Theorem C03_next_window_starts_at_previous_end :
+  forall c from until now u2 s,
+    let s1 := step c s (EDelta from until AbNo) in
+    lu s1 = until /\ warn s1 = false /\ force s1 = force s /\
+    (until + c_interval c <= now -> force s = false ->
+     step c s1 (ETick now u2 AbNo) = update_delta c until u2 now now AbNo (set_force false (set_lu now s1))) /\
+    step c s1 (EResume now u2) = update_delta c until u2 now now AbNo (tp_refresh c 0 s1).
+Proof. exact delta_then_tick. Qed.
+
 (** timeperiods: a refresh that is answered stores the backend's values *)
 Theorem C03_timeperiods_refresh :
   forall c s, ctp (tp_refresh c 0 s) = btp s.
@@ -249,3 +265,4 @@ Print Assumptions C03_convergence_one_tick.
 Print Assumptions C03_convergence.
 Print Assumptions C03_convergence_progress.
 Print Assumptions C03_timeperiods_refresh.
+Print Assumptions C03_next_window_starts_at_previous_end.
